@@ -163,6 +163,32 @@ theorem step_frame (s : St) (op : Op) (r : Nat) (ra : Ra) (hg : getRa s r = some
         | (refine upd r0 ra0 _ hr0 rfl ?_
            intro hr h00; subst h00; subst hr
            exact ⟨Or.inr (Or.inr ⟨rfl, by simp_all, rfl, rfl, rfl, rfl⟩), Or.inl rfl, rfl⟩)
+  | update r0 n =>
+    simp only [step, stepUpdate]
+    cases hr0 : getRa s r0 with
+    | none => exact keep
+    | some ra0 =>
+      simp only
+      repeat' split
+      all_goals first
+        | exact keep
+        | (refine upd r0 ra0 _ hr0 rfl ?_
+           intro _ h00; subst h00
+           exact ⟨Or.inl rfl, Or.inl rfl, rfl⟩)
+  | fork r0 gov h =>
+    simp only [step, stepFork]
+    split
+    · exact keep
+    cases hr0 : getRa s r0 with
+    | none => exact keep
+    | some ra0 =>
+      simp only
+      repeat' split
+      all_goals first
+        | exact keep
+        | (refine upd r0 ra0 _ hr0 rfl ?_
+           intro _ h00; subst h00
+           exact ⟨Or.inl rfl, Or.inl rfl, rfl⟩)
   | chopen r0 via =>
     simp only [step, stepChopen]
     cases hr0 : getRa s r0 with
@@ -200,7 +226,7 @@ theorem step_frame (s : St) (op : Op) (r : Nat) (ra : Ra) (hg : getRa s r = some
         | some ra0 =>
           simp only
           by_cases ht : (ra0.tph != 0) = true
-          · rw [if_pos ht]; exact keep
+          · rw [if_pos ht]; split <;> exact keep
           · rw [if_neg ht]
             by_cases hok : ((handshake ra0 ph p).2 == Res.ok) = true
             · rw [if_pos hok]
@@ -241,6 +267,10 @@ theorem step_chans (s : St) (op : Op) : ∃ l, (step s op).1.chans = s.chans ++ 
                all_goals exact ⟨[], by simp [setRa_chans]⟩
   | premd r => simp only [step, stepPremd]; repeat' split
                all_goals exact ⟨[], by simp [setRa_chans]⟩
+  | update r n => simp only [step, stepUpdate]; repeat' split
+                  all_goals exact ⟨[], by simp [setRa_chans]⟩
+  | fork r gov h => simp only [step, stepFork]; repeat' split
+                    all_goals exact ⟨[], by simp [setRa_chans]⟩
   | chopen r via => simp only [step, stepChopen]; repeat' split
                     all_goals first
                       | exact ⟨[_], rfl⟩
